@@ -3,6 +3,7 @@
 # the quick checks given in $PROPS; every check must stay quiet (exit 0).
 cd /verif
 root=${1:-/tmp/seed2}
+export VERIF_OUT=/tmp/seedruns/out
 PROPS=${PROPS:-"C01 C08 C09 C10 C13 C17 C18 C06 C16 C20"}
 for d in $root/B*/_seed/*/; do
   id=$(echo $d | sed 's:.*/\(B[0-9]\)/_seed/\([0-9]*\)/:\1-\2:')
